@@ -5,15 +5,25 @@ Every sub-family is the full product of a few small explicit alphabets (listed n
 The expected text of every unit is computed here by a plain Python model of docs/SPECIFICATION.md (ints are 64-bit,
 bools print as true/false, strings print as they are, an enum variant is the integer given in its definition).
 
-Excluded on purpose (tried on the unchanged /repo, see the comment at each place):
+Excluded on purpose (each was tried on the unchanged /repo; the reason is repeated next to the alphabet it concerns):
   * match-expression arms that are blocks (the three engines do not agree on them; match STATEMENTS with block arms
     that print or return are used, as the core family does);
-  * enum values outside the signed 32-bit range (the parser keeps them in a C int; the spec's examples stay small),
-    two variants with the same value (the native name-table switch cannot hold duplicate cases);
+  * enum values outside the signed 32-bit range (parser and AST keep them in a C int; the spec's examples stay small),
+    two variants with the same value (the native name-table switch cannot hold duplicate cases); enums mixing
+    explicit and implicit values are enumerated but only compared between the engines (the spec does not say how the
+    implicit values continue);
   * struct field assignment (`set p.x ..` is not in the grammar) - "mutation of a copy" is `set copy <new struct value>`;
-  * function values / tuples / enums as struct or union FIELDS, field access on a tuple element (`(f 1).0.x`):
-    rejected by the type checker or not compiled natively; tuples are listed as "in development" by the spec (12);
+  * function values / tuples / enums as struct or union FIELDS and field access on a tuple element (`(f 1).0.x`):
+    refused by the type checker or not compiled natively; non-int tuple elements read from a call result (the type
+    checker types `(f 1).N` as int, a TODO it documents; tuples are "in development", spec 12);
+  * a call as function-typed argument `(app (get) x)` ("Function parameter expects a function name"), function types
+    mentioning function types ("Nested function types not yet supported"), calling a fn() -> T value (`(f)` without
+    arguments denotes the value itself);
   * floats other than 2.5 and -0.25 (100.0 prints as 100.0 on the VM and as 100 in the evaluator; the spec is silent).
+
+Field-name collisions are part of the alphabets on purpose (a struct declared earlier, another variant, another union
+using the same field / variant names at other positions): every unit carries its own colliding declarations, because a
+unit that only fails next to ANOTHER unit's declarations cannot be isolated by the runner.
 """
 import itertools
 
